@@ -198,7 +198,12 @@ def run(ck):
         for cx in rules.comparisons(g):
             rel, d = rules.cmp_rejects(g, cx)
             oa, ob = g.origins(cx["a"], deep=True), g.origins(cx["b"], deep=True)
-            if rel == "Lt" and has_call_origin(oa, r"Cursor::<T>::position$|Cursor<.*>::position$") and has_call_origin(ob, r"::len$") and rd and all(g.dominates(rb, cx["bb"]) for (rb, _) in rd):
+            POS, LEN = r"Cursor::<T>::position$|Cursor<.*>::position$", r"::len$"
+            # position < len, len > position, or position != len (the position cannot exceed the length): all refuse a
+            # destination that was not filled
+            fwd = has_call_origin(oa, POS) and has_call_origin(ob, LEN) and not has_call_origin(oa, LEN)
+            bwd = has_call_origin(ob, POS) and has_call_origin(oa, LEN) and not has_call_origin(ob, LEN)
+            if ((fwd and rel in ("Lt", "Ne")) or (bwd and rel in ("Gt", "Ne"))) and rd and all(g.dominates(rb, cx["bb"]) for (rb, _) in rd):
                 good.append(cx)
         ck.ob("CMP", pth, "fixed-size-destination-filled", len(rd) == 1 and len(good) == 1,
               "after the read, fewer bytes written than the destination holds is an error (tested on the cursor position, so it also holds for chunked byte strings)" if len(good) == 1 else
